@@ -112,6 +112,60 @@ class ObResult(dict):
     pass
 
 
+def close_reductions(ctx, base, timeout_ms=5000, max_rounds=4):
+    """Congruence for reductions over symbolic extents.  A reduction is an uninterpreted constant plus (kind, extent, body).
+    Lemmas added (each justified by a discharged side query at fresh indices):
+      * same kind, equal extents, point-wise equal bodies  =>  equal reductions;
+      * sum whose body does not depend on the index (body(j1) == body(j2))  =>  sum == extent * body;
+      * sum of non-negative terms is non-negative.
+    Returns the list of lemma formulas (possibly creating further reduction records while evaluating bodies)."""
+    lemmas = []
+    done_pairs, done_const = set(), set()
+    for _ in range(max_rounds):
+        changed = False
+        reds = list(ctx.reductions)
+        j1, j2 = z3.Int("red!j1"), z3.Int("red!j2")
+        for r in reds:
+            if r.rid in done_const or r.kind != "sum":
+                continue
+            done_const.add(r.rid)
+            ext = ir.zint(r.extent)
+            b1, b2 = r.body(j1), r.body(j2)
+            rng = [j1 >= 0, j1 < ext, j2 >= 0, j2 < ext]
+            cur = list(ctx.assumptions) + base + lemmas
+            if ir.is_const(b1) or _valid(cur + rng, ir.seq(b1, b2), timeout_ms):
+                lemmas.append(z3.Implies(ext >= 1, ir.zreal(r.sym) == z3.ToReal(ext) * ir.zreal(z3.substitute(ir.zreal(b1), (j1, z3.IntVal(0))) if ir.is_z3(b1) else b1)))
+                changed = True
+            if _valid(cur + rng[:2], ir.sge(b1, 0), timeout_ms):
+                lemmas.append(ir.zreal(r.sym) >= 0)
+            changed = changed or len(ctx.reductions) != len(reds)
+        reds = list(ctx.reductions)
+        for a in reds:
+            for b in reds:
+                if a.rid >= b.rid or a.kind != b.kind or (a.rid, b.rid) in done_pairs:
+                    continue
+                ea, eb = ir.zint(a.extent), ir.zint(b.extent)
+                cur = list(ctx.assumptions) + base + lemmas
+                if not (ea.eq(eb) or _valid(cur, ea == eb, timeout_ms)):
+                    done_pairs.add((a.rid, b.rid))
+                    continue
+                ba, bb = a.body(j1), b.body(j1)
+                if _valid(list(ctx.assumptions) + base + lemmas + [j1 >= 0, j1 < ea], ir.seq(ba, bb), timeout_ms):
+                    lemmas.append(a.sym == b.sym)
+                    done_pairs.add((a.rid, b.rid))
+                    changed = True
+        if not changed and len(ctx.reductions) == len(reds):
+            break
+    return lemmas
+
+
+def _valid(hyps, goal, timeout_ms):
+    if ir.is_const(goal):
+        return bool(goal)
+    st, _, _, _ = _solve_z3([ir.zbool(h) for h in hyps] + [z3.Not(goal), ir.INF_AXIOM], timeout_ms)
+    return st == "unsat"
+
+
 class Session:
     """Collects obligation results for one unit."""
 
@@ -154,9 +208,9 @@ class Session:
         t0 = time.time()
         goal = ir.zbool(goal)
         hyps = [ir.zbool(h) for h in hyps]
-        base = list(ctx.assumptions) + hyps
-        if getattr(ctx, "uses_inf", False) or True:
-            base.append(ir.INF_AXIOM)
+        red_lemmas = close_reductions(ctx, hyps) if ctx.reductions else []
+        base = list(ctx.assumptions) + hyps + red_lemmas
+        base.append(ir.INF_AXIOM)
         combos = [()]
         hole_list = []
         if holes:
